@@ -333,8 +333,7 @@ class Gen:
                 if isinstance(ty, ArrT): ty = ty.base; k += 1
                 else: break
         if edepth <= 0:
-            c0 = [x for x in c if x[1] == 0]
-            c = c0 or c
+            c = [x for x in c if x[1] == 0]     # no index expressions at depth 0 (bounds the recursion)
         if not c: return None
         v, k = s.r.choice(c)
         t = Tok("id", v.name, role="use", bind=v)
